@@ -41,6 +41,8 @@ QUICK_FLAGS = {"succ.1.2", "succ.2.1", "succ.3.2", "succ.1.3", "succ.2.3",
                "intersection.cross.3", "intersection.in22.3"}
 # 18 symbolic intersection flags are 262144 structures per obligation, beyond the thorough budget: these five stay at their defaults
 FULL_SKIP = {"intersection.le21.1", "intersection.le21.2", "intersection.ri22.2", "intersection.ri22.3", "intersection.in22.2"}
+# the cut-out obligations fork additionally on the cut-out itself: three more intersection flags stay at their defaults there
+CUTOUT_SKIP = {"intersection.st21.1", "intersection.cross.1", "intersection.cross.2"}
 TYPES = {1: {LaneletType.URBAN}, 2: {LaneletType.HIGHWAY}, 3: {LaneletType.URBAN, LaneletType.SIDEWALK}}
 GEOM = {1: (0.0, 0.0), 2: (10.0, 0.0), 3: (0.0, 5.0)}  # x0, y0 of 10 x 3 lanelets
 KINDS = ["succ", "adj", "signs", "lights", "intersection"]
@@ -49,9 +51,9 @@ KINDS = ["succ", "adj", "signs", "lights", "intersection"]
 class Spec:
     """the relation structure (plain Python data), built from symbolic flags for one kind and defaults for the rest"""
 
-    def __init__(self, V, kind, full=False):
+    def __init__(self, V, kind, full=False, extra_skip=()):
         def f(name, default):
-            if name.split(".")[0] != kind or not (full or name in QUICK_FLAGS) or name in FULL_SKIP:
+            if name.split(".")[0] != kind or not (full or name in QUICK_FLAGS) or name in FULL_SKIP or name in extra_skip:
                 return default
             return V.flag(name)
 
@@ -240,7 +242,7 @@ def _mk_cut(kind, how, full):
                           "from a lanelet list (7 subsets)"][how])
     def ob(V):
         warnings.filterwarnings("ignore")
-        spec = Spec(V, kind, full)
+        spec = Spec(V, kind, full, CUTOUT_SKIP)
         net = spec.build()
         before = snapshot(net)
         if how == 0:
